@@ -23,8 +23,8 @@ def check(run):
         jobs.append(('c04_stateless', 'AlgsStatelessQuick', '<- CQuick', '<- CQuick', 'LimsQuick', 8))
         jobs.append(('c04_pid200', 'AlgsPid200', '= {%d}' % [77, 128, 1, 254, 200, 33][run.seed % 6], '= {0}', 'LimsOne', 8))
     else:
-        jobs.append(('c04_stateless', 'AlgsStatelessThorough', '<- All', '<- All', 'LimsThorough', 4))
-        for dt, cs in [(50, '{77}'), (100, '{128}'), (200, '{0, 1, 77, 128, 254, 255}'), (500, '{33, 200}'),
+        jobs.append(('c04_stateless', 'AlgsStatelessThorough', '<- CThorough', '<- CQuick', 'LimsThorough', 4))   # ~17 M states
+        for dt, cs in [(50, '{77}'), (100, '{128}'), (200, '{0, 77, 255}'), (500, '{33, 200}'),
                        (1000, '{77, 254}'), (2000, '{1, 128}')]:
             jobs.append(('c04_pid%d' % dt, 'AlgsPid%d' % dt, '= ' + cs, '= {0, 255}', 'LimsOne', 4))
     with cf.ThreadPoolExecutor(max_workers=2 if q else 4) as ex:
